@@ -143,7 +143,17 @@ pub fn main(args: &[String]) {
     let mut problems = vec![];
     for k in 0..n {
         let out = scratch.path().join(format!("t{}.ndjson", k));
-        let st = Command::new(&exe).arg("reloadlive-child").arg(&out).arg(k.to_string()).status();
+        // every other child runs with a standard error stream nobody reads any more (a pipe whose reader has gone
+        // away): reporting a broken file there fails, which is no reason for the refresh thread to stop (Reloader.tla:
+        // a failed poll is followed by the next one)
+        let st = if k % 2 == 1 {
+            Command::new(&exe).arg("reloadlive-child").arg(&out).arg(k.to_string()).stderr(std::process::Stdio::piped()).spawn().and_then(|mut c| {
+                drop(c.stderr.take());
+                c.wait()
+            })
+        } else {
+            Command::new(&exe).arg("reloadlive-child").arg(&out).arg(k.to_string()).status()
+        };
         match st {
             Ok(s) if s.success() => {}
             other => problems.push(json!({"what": "child failed", "scenario": k, "status": format!("{:?}", other)})),
